@@ -92,7 +92,7 @@ def stepLine (s : State) (line : String) : State × String :=
     match b01? d with
     | some d =>
       let (s', o) := recvResp s d key
-      (s', match o with | .undecodable => "undecodable" | .posted => "posted" | .unsupported => "unsupported")
+      (s', match o with | .undecodable => "undecodable" | .posted => "posted" | .unsupported => "unsupported" | .duplicate => "duplicate")
     | none => (s, "bad-op")
   | ["pmsg", "other"] => (s, "unsupported")
   | ["dtick"] =>
@@ -135,12 +135,12 @@ def stepLine (s : State) (line : String) : State × String :=
     match rd? rd, parseInt? a, parseInt? b with
     | some rd, some a, some b => (s, showStream (dlNew s.chain rd a b))
     | _, _, _ => (s, "bad-op")
-  | ["dlreply", rd, hm, items, fb, bn, h] =>
-    match rd? rd, b01? hm, items.toNat?, b01? fb, b01? bn, parseInt? h with
-    | some rd, some hm, some items, some fb, some bn, some h =>
-      (s, match dlReply ⟨rd, hm, items, fb, bn, h⟩ with
+  | ["dlreply", rd, hm, items, fb, bn, h, rq] =>
+    match rd? rd, b01? hm, items.toNat?, b01? fb, b01? bn, parseInt? h, parseInt? rq with
+    | some rd, some hm, some items, some fb, some bn, some h, some rq =>
+      (s, match dlReply ⟨rd, hm, items, fb, bn, h, rq⟩ with
           | .panic => "panic" | .ok none => "err" | .ok (some h) => s!"block {h}")
-    | _, _, _, _, _, _ => (s, "bad-op")
+    | _, _, _, _, _, _, _ => (s, "bad-op")
   | ["ver", _old, rd, same, addr, _recv] =>
     match rd? rd, b01? same, some (addr != "0") with
     | some rd, some same, some addr =>
